@@ -1,6 +1,7 @@
 /-
 C08 — completeness of `verify_nsec` at the validator level, for the two negative shapes whose
-accepting arm is complete (NXDOMAIN, NODATA at an existing owner): whenever the claim is true in
+accepting arm is complete (NXDOMAIN, NODATA at an empty non-terminal, NODATA at an existing
+owner): whenever the claim is true in
 a zone view `Z` and the response carries the records RFC 4035 §3.1.3.2 / §5.4 ask for — the
 link of `Z`'s chain covering the query name and the link covering the wildcard at its closest
 encloser (NXDOMAIN), or a link owned by the query name (NODATA) — among any other links of `Z`,
@@ -8,10 +9,8 @@ in any order, the verdict is `Secure`.
 
 This is the validator half of "the proof the authoritative server attaches is accepted".  The
 server half — which records `nsec_records` / `build_authoritative_response` attach — is
-modelled by C10 (`Model/AuthZoneSigned.lean`, `C10.closestNsec_covers`); it attaches the cover
-of `*.<parent of qname>`, which is the wildcard at the closest encloser only when the parent
-exists (open finding C08-G6 otherwise).  The other response shapes (empty non-terminal NODATA,
-wildcard NODATA, wildcard answers) are NOT complete: open findings C08-G1, G2, G4, G5.
+modelled by C10 (`Model/AuthZoneSigned.lean`) and joined in `C08Server.lean`.  Acceptance of
+wildcard-expanded answers and of wildcard NODATA is not proved here (validated end to end).
 -/
 import HickoryVerif.Proofs.C08
 
